@@ -368,7 +368,9 @@ class Interp:
         if isinstance(op, ast.IsNot):
             return self._not(self.compare(ast.Is(), a, b, st))
         if isinstance(op, (ast.In, ast.NotIn)):
-            if isinstance(b, dict):
+            if isinstance(b, SymDict):
+                r = b.contains(a, st)
+            elif isinstance(b, dict):
                 r = a in b
             elif isinstance(b, (tuple, list)):
                 r = self._or([self.eq(a, x, st) for x in b])
@@ -660,6 +662,8 @@ class Interp:
                 return OptReal(st.hget(obj, "vpot_none"), st.hget(obj, "vpot"))
             if attr == "ekin":
                 return OptReal(st.hget(obj, "ekin_none"), st.hget(obj, "ekin"))
+        if obj.cls == "System" and attr == "config":
+            return (st.hget(obj, "cfg_file"), st.hget(obj, "cfg_idx"))
         if obj.cls == "Path" and attr == "generated":
             return GenVal(st.hget(obj, "generated0").term)
         return None
@@ -1321,6 +1325,8 @@ class Interp:
                     v = Ref(lk[tgt.id][1], -1, nullable=True)
                 elif isinstance(v, Ref):
                     v = Ref(v.cls, v.term, nullable=True)
+            elif lk and tgt.id in lk and lk[tgt.id] == "symdict" and isinstance(v, dict) and not v:
+                v = SymDict()
             elif lk and tgt.id in lk and isinstance(v, list):
                 # a local list of symbolic length: content arrays + definitional prefix sums
                 v = LstObj(self.as_seq(v, st, kinds=lk[tgt.id]).with_psums(st, tgt.id + ".ps"))
@@ -1517,6 +1523,8 @@ class Interp:
                 continue  # object state lives in the heap (havoced through `modifies`)
             if isinstance(v, LstObj):
                 self._havoc_val(v, n, st)
+            elif isinstance(v, SymDict):
+                v.pyvc_havoc(n, st, self)
             elif isinstance(v, (list, dict)):
                 raise Unsupported(f"loop mutates concrete container {n}")
 
@@ -1571,6 +1579,11 @@ class Interp:
         assigned = _assigned_names(node.body, mutated) | _target_names(node.target)
         hv = st.fork()
         self._havoc_env(hv, assigned, mutated)
+        for nm in assigned - _target_names(node.target):
+            if nm not in hv.env:
+                # loop-carried name first bound inside the body: at an arbitrary iteration it holds a value left by an
+                # earlier iteration (modelled as an unconstrained integer; other kinds surface as Unsupported)
+                hv.env[nm] = fresh(nm + ".carried", INT)
         for key in spec.modifies:
             hv.heap[key] = fresh("lp." + key, hv.heap[key].sort())
         if spec.allocates:
@@ -1713,6 +1726,42 @@ class OptReal:
 
     def compare(self, op, other, st, ex):
         raise Unsupported("ordering on optional real")
+
+
+class SymDict:
+    """dict with symbolic (interned int) keys: membership array + value array, held in st.boxes like a list."""
+
+    def __init__(self):
+        import itertools as _it
+        self.id = ("dict", next(_DICT_IDS))
+
+    def _get(self, st):
+        if self.id not in st.boxes:
+            st.boxes[self.id] = (z3.K(INT, z3.BoolVal(False)), z3.K(INT, z3.IntVal(0)))
+        return st.boxes[self.id]
+
+    def contains(self, key, st):
+        return z3.Select(self._get(st)[0], to_int(key))
+
+    def pyvc_subscript(self, idx, st, ex, node):
+        mem, vals = self._get(st)
+        k = to_int(idx)
+        ex.oblige(st, f"no_key_error@{node.lineno}", z3.Select(mem, k))
+        st.assume(z3.Select(mem, k))
+        return z3.Select(vals, k)
+
+    def pyvc_setitem(self, idx, v, st, ex, node):
+        mem, vals = self._get(st)
+        k = to_int(idx)
+        st.boxes[self.id] = (z3.Store(mem, k, z3.BoolVal(True)), z3.Store(vals, k, to_int(v)))
+
+    def pyvc_havoc(self, n, st, ex):
+        st.boxes[self.id] = (fresh(n + ".mem", z3.ArraySort(INT, BOOL)), fresh(n + ".val", z3.ArraySort(INT, INT)))
+        return self
+
+
+import itertools as _itertools
+_DICT_IDS = _itertools.count()
 
 
 class CompView:
